@@ -74,3 +74,81 @@ Print Assumptions C16_lpf_gen_range.
 Theorem C16_hpf_gen_range : forall fc ts, 0 < fc -> 0 < ts -> 0 < hpf_gen R_ops fc ts < 1.
 Proof. exact hpf_gen_range. Qed.
 Print Assumptions C16_hpf_gen_range.
+
+(* ------------------------------------------------------------------------------------------------------------------
+   ROUNDED ARITHMETIC (C16/FilterRound.v): the low pass at Rnd_ops rnd,
+       lpf_iter (Rnd_ops rnd) alpha out x = rnd (rnd (out * rnd (1 - alpha)) + rnd (x * alpha)),
+   comparisons exact, overflow outside the model.  mono_rnd rnd: rnd monotone, rnd 0 = 0, rnd 1 = 1, rnd (-x) = - rnd x
+   (Common/RoundMono.v; binary64 round-to-nearest-even satisfies it, by Flocq). *)
+From LibaV Require Import Common.RoundOps Common.RoundFlocq Common.RoundMono C16.FilterRound.
+
+(* C16_lpf_convex does NOT survive rounding: a 3-bit binary round-to-nearest-even format (monotone, odd, idempotent,
+   standard model with eps = 1/8), alpha = 5/64, out = x = 5, all numbers of the format: the output 4 is below both *)
+Theorem C16_round_lpf_hull_refuted :
+  exists (rnd : R -> R) (alpha o x : R),
+    mono_rnd rnd /\ idem_rnd rnd /\ std_model rnd (/ 8) 0 /\
+    0 <= alpha <= 1 /\ rnd alpha = alpha /\ rnd o = o /\ rnd x = x /\
+    lpf_iter (Rnd_ops rnd) alpha o x < Rmin o x.
+Proof. exact lpf_hull_refuted. Qed.
+Print Assumptions C16_round_lpf_hull_refuted.
+
+(* ... nor in IEEE binary64: alpha = 0x1.999999999999ap-4 (nearest 0.1), out = x = 13 give 13 + 2^-49 *)
+Theorem C16_b64_lpf_hull_refuted :
+  (exists alpha o x : R,
+     0 <= alpha <= 1 /\ rnd64 alpha = alpha /\ rnd64 o = o /\ rnd64 x = x /\
+     Rmax o x < lpf_iter (Rnd_ops rnd64) alpha o x) /\
+  lpf_iter (Rnd_ops rnd64) (3602879701896397 / 36028797018963968) 13 13 = 13 + / 562949953421312 /\
+  ~ (forall alpha lo hi, 0 <= alpha <= 1 -> forall xs o,
+       lo <= o <= hi -> List.Forall (fun x => lo <= x <= hi) xs ->
+       List.Forall (fun y => lo <= y <= hi) (lpf_run (Rnd_ops rnd64) alpha o xs)).
+Proof. exact (conj lpf_hull_refuted_binary64 (conj lpf_rnd64_witness lpf_convex_binary64_refuted)). Qed.
+Print Assumptions C16_b64_lpf_hull_refuted.
+
+(* what IS true under monotone rounding, alpha in [0,1], every history: the filter is monotone in state and inputs *)
+Theorem C16_round_lpf_mono : forall (rnd : R -> R), mono_rnd rnd -> forall alpha, 0 <= alpha <= 1 ->
+  forall xs1 xs2 o1 o2, o1 <= o2 -> Forall2 Rle xs1 xs2 ->
+  Forall2 Rle (lpf_run (Rnd_ops rnd) alpha o1 xs1) (lpf_run (Rnd_ops rnd) alpha o2 xs2).
+Proof. exact r_lpf_mono. Qed.
+Print Assumptions C16_round_lpf_mono.
+
+(* sign preservation: the hulls [0, +oo) and (-oo, 0] survive *)
+Theorem C16_round_lpf_sign : forall (rnd : R -> R), mono_rnd rnd -> forall alpha, 0 <= alpha <= 1 -> forall xs o,
+  (0 <= o -> List.Forall (fun x => 0 <= x) xs -> List.Forall (fun y => 0 <= y) (lpf_run (Rnd_ops rnd) alpha o xs)) /\
+  (o <= 0 -> List.Forall (fun x => x <= 0) xs -> List.Forall (fun y => y <= 0) (lpf_run (Rnd_ops rnd) alpha o xs)).
+Proof. exact (fun rnd M alpha Ha xs o => conj (r_lpf_nonneg rnd M alpha Ha xs o) (r_lpf_nonpos rnd M alpha Ha xs o)). Qed.
+Print Assumptions C16_round_lpf_sign.
+
+(* the hull statement for an interval [lo,hi] over every history holds exactly when it holds in the two constant
+   corner cases *)
+Theorem C16_round_lpf_hull_iff_corners : forall (rnd : R -> R), mono_rnd rnd -> forall alpha lo hi,
+  0 <= alpha <= 1 -> lo <= hi ->
+  ((forall xs o, lo <= o <= hi -> List.Forall (fun x => lo <= x <= hi) xs ->
+      List.Forall (fun y => lo <= y <= hi) (lpf_run (Rnd_ops rnd) alpha o xs)) <->
+   lo <= lpf_iter (Rnd_ops rnd) alpha lo lo /\ lpf_iter (Rnd_ops rnd) alpha hi hi <= hi).
+Proof. exact r_lpf_hull_iff_corners. Qed.
+Print Assumptions C16_round_lpf_hull_iff_corners.
+
+(* the weakened hull statement, one step, under the standard model |rnd x - x| <= eps |x| + eta (monotonicity not used):
+   lpf_B eps eta A = ((1+eps)^3 - 1) A + eta ((1+eps)^2 A + 2 (1+eps) + 1) *)
+Theorem C16_round_lpf_hull_enlarged : forall (rnd : R -> R) eps eta, std_model rnd eps eta -> rnd 1 = 1 ->
+  forall alpha o x lo hi A, 0 <= alpha <= 1 ->
+  lo <= o <= hi -> lo <= x <= hi -> Rabs lo <= A -> Rabs hi <= A ->
+  Rabs (lpf_iter (Rnd_ops rnd) alpha o x - lpf_iter R_ops alpha o x) <= lpf_B eps eta A /\
+  lo - lpf_B eps eta A <= lpf_iter (Rnd_ops rnd) alpha o x <= hi + lpf_B eps eta A.
+Proof. exact r_lpf_error_and_hull. Qed.
+Print Assumptions C16_round_lpf_hull_enlarged.
+
+(* binary64 instances: eps64 = 2^-53, eta64 = 2^-1075 *)
+Theorem C16_b64_lpf_mono_sign : forall alpha, 0 <= alpha <= 1 ->
+  (forall xs1 xs2 o1 o2, o1 <= o2 -> Forall2 Rle xs1 xs2 ->
+     Forall2 Rle (lpf_run (Rnd_ops rnd64) alpha o1 xs1) (lpf_run (Rnd_ops rnd64) alpha o2 xs2)) /\
+  (forall xs o, 0 <= o -> List.Forall (fun x => 0 <= x) xs ->
+     List.Forall (fun y => 0 <= y) (lpf_run (Rnd_ops rnd64) alpha o xs)).
+Proof. exact (fun alpha Ha => conj (b64_lpf_mono alpha Ha) (b64_lpf_nonneg alpha Ha)). Qed.
+Print Assumptions C16_b64_lpf_mono_sign.
+
+Theorem C16_b64_lpf_hull_enlarged : forall alpha o x lo hi A, 0 <= alpha <= 1 ->
+  lo <= o <= hi -> lo <= x <= hi -> Rabs lo <= A -> Rabs hi <= A ->
+  lo - lpf_B eps64 eta64 A <= lpf_iter (Rnd_ops rnd64) alpha o x <= hi + lpf_B eps64 eta64 A.
+Proof. exact b64_lpf_hull_enlarged. Qed.
+Print Assumptions C16_b64_lpf_hull_enlarged.
